@@ -806,6 +806,7 @@ impl Ctx {
                     // the retry is recorded.
                     let was_violation = !first.kind.starts_with("inconclusive");
                     let first = first.clone();
+                    eprintln!("{sub}: case {i} first run: [{}] {} - running it again", first.kind, first.message);
                     let tries = if was_violation { 4 } else { self.confirm_runs };
                     let mut confirmed: Option<Violation> = None;
                     let mut last_ok: Option<Outcome> = None;
